@@ -208,6 +208,60 @@ fn radices_str(tier: Tier, bits: u32) -> Vec<u32> {
     }
 }
 
+/// Values whose base-r numeral has structure: powers of the radix and their neighbours, numerals
+/// with long interior runs of zeros (d * r^k + e), and values whose most significant machine digit is
+/// itself a power of the radix.  Unsigned values below 2^bits.
+pub fn radix_directed(bits: u32, w: u32, r: u32) -> Vec<Z> {
+    let lim = BigRef::pow2(bits as u64);
+    let rb = big(r as i128);
+    let mut out: Vec<Z> = Vec::new();
+    let mut push = |v: Z| {
+        if !v.is_neg() && v < lim {
+            out.push(v);
+        }
+    };
+    // powers and neighbours, interior zeros
+    let mut p = big(1);
+    let mut k = 0u32;
+    let r2 = rb.mul(&rb);
+    while p < lim && k < 9000 {
+        for d in [-1i128, 0, 1] {
+            push(p.add(&big(d)));
+        }
+        push(p.mul(&big(2)));
+        push(p.mul(&big(r as i128 - 1)).add(&big(1)));
+        // d * r^k + e : a non-zero head, a run of zeros, a non-zero tail
+        for head in [big(1), rb.add(&big(1)), r2.add(&big(1)), big(739)] {
+            for tail in [big(1), rb.sub(&big(1)), r2.sub(&big(1)), big(42)] {
+                if tail < p {
+                    push(head.mul(&p).add(&tail));
+                }
+            }
+        }
+        p = p.mul(&rb);
+        k += 1;
+    }
+    // most significant machine digit equal to a power of the radix (and +-1)
+    let n = bits / w;
+    let mut q = rb.clone();
+    while q.bit_len() <= w as u64 {
+        for j in 1..n {
+            let sh = (w * j) as u64;
+            for d in [-1i128, 0, 1] {
+                let top = q.add(&big(d)).shl(sh);
+                push(top.clone());
+                push(top.add(&big(1)));
+                push(top.add(&BigRef::pow2(sh).sub(&big(1))));
+                push(top.add(&BigRef::pow2(sh).mod_pow2(sh).add(&big(0x1234_5678_9abc_def0i128)).mod_pow2(sh)));
+            }
+        }
+        q = q.mul(&rb);
+    }
+    out.sort();
+    out.dedup();
+    out
+}
+
 /// C10 for one configuration
 pub fn parse_check<T: StrApi>(run: &mut Run) {
     let config = T::type_name();
@@ -378,6 +432,10 @@ pub fn parse_check<T: StrApi>(run: &mut Run) {
         let cap = capacity(ti, r);
         let mut strings: Vec<Vec<u8>> = Vec::new();
         let mut vs = vals.clone();
+        // numerals with structure in this radix (powers, interior zero runs, power-valued top digit)
+        let directed = radix_directed(bits, T::DIGIT_BITS, r);
+        let stride = (directed.len() / 400).max(1);
+        vs.extend(directed.into_iter().step_by(stride));
         vs.push(max.add(&big(1)).mul(&big(r as i128)));
         vs.push(BigRef::pow2(bits as u64).mul(&big(r as i128)).mul(&big(r as i128)));
         for v in &vs {
@@ -566,6 +624,23 @@ pub fn radix_out_check<T: StrApi>(run: &mut Run) {
         }
     });
     run.merge(&config, label, "radix output", vs.len() as u64 * radices.len() as u64, l);
+    // directed values per radix: powers of the radix, interior zero runs, power-valued top digits
+    let ti = T::ti();
+    let l = par_chunks(run.threads, all.len(), |lo, hi, l| {
+        for &r in &all[lo..hi] {
+            for v in radix_directed(bits, T::DIGIT_BITS, r) {
+                // the bit pattern, and (signed) also its negation
+                let x = T::from_z(&ti.wrap(&v));
+                radix_out_transitions::<T>(&cfg, x, &x.z::<Z>(), r, l);
+                if T::SIGNED {
+                    let y = T::from_z(&ti.wrap(&v.neg()));
+                    radix_out_transitions::<T>(&cfg, y, &y.z::<Z>(), r, l);
+                }
+            }
+        }
+    });
+    let ntr = l.transitions;
+    run.merge(&config, "directed: r^k +- 1, d*r^k + e, top digit = r^p, per radix", "radix output", ntr / 5, l);
     if bits == 24 && tier == Tier::Thorough {
         // the boundary set against every radix as well
         let vs: Vec<T> = sets::structured(T::DIGIT_BITS, T::N, tier).iter().map(|b| T::from_le(b)).collect();
